@@ -175,12 +175,22 @@ func lateralDeepCases(g *hc.Gen, pr *hc.Proc, o *hc.Out, n int) {
 		sp := latSpellings[g.Intn(len(latSpellings))]
 
 		// the sub-select
-		subForm := []string{"key", "key", "key", "free", "none", "agg", "agg"}[g.Intn(7)]
+		subForm := []string{"key", "key", "key", "free", "none", "agg", "agg", "failing"}[g.Intn(8)]
 		var s subq
 		shdr := []col{{"s", "c1", false}}
 		merge := "" // "using" / "natural": the sub-select names its key column k
 		if subForm == "agg" {
 			s, _ = x.aggSubSelect(e, tb, "b1", l.hdr, []string{"key", "key", "free", "none"}[g.Intn(4)], "c1")
+		} else if subForm == "failing" {
+			// the sub-select FAILS for the left records whose key has two or more partners (a scalar sub-query with too
+			// many records), for the others it does not: whatever worker meets a failing record first, the join fails
+			inner := nTable(e, tb, "c1")
+			iw := &cond{op: "cmp", cop: "=", e: []expr{{named: true, rview: "c1", rname: "k"}, {named: true, rview: "a1", rname: "k"}}}
+			isql, itok, _ := nQuery(e, inner, iw, false, []nitem{{e: expr{named: true, rview: "c1", rname: "v"}, out: "c1"}})
+			from := nTable(e, tb, "b1")
+			w := &cond{op: "cmp", cop: "=", e: []expr{{named: true, rview: "b1", rname: "v"}, {scalar: true, subSQL: isql, sub: 0}}}
+			sql, tok, _ := nQuery(e, from, w, false, []nitem{{e: expr{named: true, rview: "b1", rname: "k"}, out: "c1"}})
+			s = subq{sql, append(append([]string{"QS", "1"}, itok...), tok[1:]...)}
 		} else {
 			ncols := 1 + g.Intn(2)
 			if sp.on && sp.dir != "R" && sp.dir != "F" && g.Intn(6) == 0 {
@@ -273,7 +283,7 @@ func lateralDeepCases(g *hc.Gen, pr *hc.Proc, o *hc.Out, n int) {
 			band(nl), firstEmpty, laterEmpty, par, outcomeOf(impl, v)))
 
 		// ---- the spellings, on the implementation alone ----
-		if c%3 == 0 && subForm != "agg" {
+		if c%3 == 0 && subForm != "agg" && subForm != "failing" {
 			body := " LATERAL (" + s.sql + ") AS s"
 			r1, _, ok1 := qrows(pr, o, "SELECT * FROM "+l.sql+" LEFT JOIN"+body+" ON TRUE")
 			r2, _, ok2 := qrows(pr, o, "SELECT * FROM "+l.sql+" LEFT OUTER JOIN"+body+" ON TRUE")
